@@ -169,7 +169,7 @@ func newSvc(i int, book *routex.Book, nt *routex.Net, logger logging.Logger) *sv
 // membership
 // ---------------------------------------------------------------------------------
 
-func observeGroups(ev kit.Ev, n *svcNode, book *routex.Book, groups []int, nbrs map[int]bool) {
+func observeGroups(ev kit.Ev, n *svcNode, book *routex.Book, groups []int, nbrs, pend map[int]bool) {
 	gl := []interface{}{}
 	for _, g := range groups {
 		conn, kept, known, ok := n.svc.VerifGroupLists(gidOf(g))
@@ -191,6 +191,14 @@ func observeGroups(ev kit.Ev, n *svcNode, book *routex.Book, groups []int, nbrs 
 	}
 	sort.Ints(nb)
 	ev["nbr"] = nb
+	pd := []int{}
+	for p, v := range pend {
+		if v {
+			pd = append(pd, p)
+		}
+	}
+	sort.Ints(pd)
+	ev["pend"] = pd
 }
 
 func runMember(sc kit.Scenario, logger logging.Logger) (evs []kit.Ev, err error) {
@@ -203,6 +211,7 @@ func runMember(sc kit.Scenario, logger logging.Logger) (evs []kit.Ev, err error)
 	ctx := context.Background()
 	groups := kit.IntList(sc.Par, "groups")
 	nbrs := map[int]bool{}
+	pend := map[int]bool{} // disconnect notifications not yet published to the service
 	// what the played peer answers to an outgoing handshake
 	var answer []byte
 	nt.Reply = func(from int, to boson.Address, stream string) []byte {
@@ -212,7 +221,7 @@ func runMember(sc kit.Scenario, logger logging.Logger) (evs []kit.Ev, err error)
 		return nil
 	}
 	first := kit.Ev{"kind": "member", "maxknown": multicast.VerifMaxKnownPeers, "panicked": false, "herr": ""}
-	observeGroups(first, n, book, groups, nbrs)
+	observeGroups(first, n, book, groups, nbrs, pend)
 	evs = append(evs, first)
 
 	gids := func(gs []int) [][]byte {
@@ -249,10 +258,16 @@ func runMember(sc kit.Scenario, logger logging.Logger) (evs []kit.Ev, err error)
 		switch name {
 		case "connect":
 			call = func() { n.route.set(book.Addr(p), true); nbrs[p] = true }
-		case "disconnect":
+		case "nbrdown":
+			// the route table no longer lists p as a neighbour; the service has not been told yet
+			call = func() { n.route.set(book.Addr(p), false); nbrs[p] = false; pend[p] = true }
+		case "event", "disconnect":
 			call = func() {
-				n.route.set(book.Addr(p), false)
-				nbrs[p] = false
+				if name == "disconnect" {
+					n.route.set(book.Addr(p), false)
+					nbrs[p] = false
+				}
+				pend[p] = false
 				n.kad.mu.Lock()
 				st := n.kad.state
 				n.kad.mu.Unlock()
@@ -310,7 +325,7 @@ func runMember(sc kit.Scenario, logger logging.Logger) (evs []kit.Ev, err error)
 		for _, s := range nt.Queue() {
 			nt.Take(s)
 		}
-		observeGroups(ev, n, book, groups, nbrs)
+		observeGroups(ev, n, book, groups, nbrs, pend)
 		evs = append(evs, ev)
 	}
 	return evs, nil
